@@ -31,6 +31,10 @@ type c39G struct {
 
 func (x *c39G) w() {
 	r := x.g.R
+	if r.Chance(12) {
+		x.sbatch(false)
+		return
+	}
 	x.idx++
 	k := r.Range(1, 4)
 	if r.Chance(50) {
@@ -85,6 +89,55 @@ func (x *c39G) ack() {
 		return
 	}
 	x.g.Op("ack", "%d", i)
+}
+
+// wItem books one ordinary write that is part of a multi-command source batch.
+func (x *c39G) wItem() string {
+	r := x.g.R
+	x.idx++
+	k := r.Range(1, 4)
+	if r.Chance(50) {
+		k = r.Range(1, 2)
+	}
+	x.val++
+	if x.started && !x.fenced && !x.switched {
+		x.pending = append(x.pending, x.idx)
+		x.all = append(x.all, x.idx)
+		x.keyOf[x.idx] = k
+	}
+	return fmt.Sprintf("w.%d.%d", k, x.val)
+}
+
+func (x *c39G) fItem() string {
+	x.idx++
+	if x.started && !x.fenced && !x.switched {
+		x.fenced = true
+		x.pending = append(x.pending, x.idx)
+		x.all = append(x.all, x.idx)
+	}
+	return "f"
+}
+
+// sbatch emits ONE source ApplyBatch: writes, optionally with enter_fence in front of / between them.
+func (x *c39G) sbatch(withFence bool) {
+	r := x.g.R
+	var items []string
+	n := r.Range(2, 4)
+	fpos := -1
+	if withFence {
+		fpos = r.Intn(n - 1) // at least one write follows the fence
+		x.g.Count("sb:fence-then-writes")
+	} else {
+		x.g.Count("sb:writes")
+	}
+	for j := 0; j < n; j++ {
+		if j == fpos {
+			items = append(items, x.fItem())
+		} else {
+			items = append(items, x.wItem())
+		}
+	}
+	x.g.Op("sb", "%s", strings.Join(items, " "))
 }
 
 func (x *c39G) deliver() {
@@ -174,7 +227,15 @@ func (x *c39G) deliver() {
 
 func (x *c39G) misc() {
 	r := x.g.R
-	switch r.Pick(25, 20, 15, 15, 15, 10) {
+	switch r.Pick(25, 20, 15, 15, 15, 10, 14, 6) {
+	case 6:
+		x.g.Op("snap2", "")
+		if x.snapped && !x.switched {
+			x.g.Count("snap2:reinstall-after-deltas")
+		}
+	case 7:
+		x.idx++
+		x.g.Op("cl", "%d", r.Range(1, x.idx))
 	case 0:
 		x.g.Op("rt", "")
 	case 1:
@@ -245,12 +306,11 @@ func genC39(g *Gen) {
 			}
 		})
 		if r.Chance(85) {
-			g.Op("fence", "")
-			x.idx++
-			if !x.fenced {
-				x.fenced = true
-				x.pending = append(x.pending, x.idx)
-				x.all = append(x.all, x.idx)
+			if r.Chance(50) {
+				x.sbatch(true) // enter_fence and following writes in ONE ApplyBatch
+			} else {
+				g.Op("fence", "")
+				x.fItem()
 			}
 		}
 		burst(1, 8, func() {
